@@ -1,7 +1,7 @@
 (* C01 — Two endpoints built on the library interoperate, even across transport loss.
    Statements only.  Nothing else may be added to this file. *)
 From MQ Require Import Base.Prelude Alloc.Alloc Alloc.AllocProofs Framing.Framing Framing.FramingProofs Conn.Types Conn.ConnRecord Conn.Step
-                       Corr.ConnTrace Conn.Scope Conn.Session Conn.IdsQuota Conn.Own Conn.OwnFrame Conn.OwnStep Conn.Run Conn.PairQos Conn.PairQos0 Conn.PairQos5 Conn.PairSeq Conn.PairSeq5 Conn.PairConc Conn.PairBi Conn.PairConc5 Conn.PairBi5 Conn.PairManual Conn.PairManual5 Conn.SessInv Conn.PairLoss Conn.PairLossAcc Conn.PairLossS.
+                       Corr.ConnTrace Conn.Scope Conn.Session Conn.IdsQuota Conn.Own Conn.OwnFrame Conn.OwnStep Conn.Run Conn.PairQos Conn.PairQos0 Conn.PairQos5 Conn.PairSeq Conn.PairSeq5 Conn.PairConc Conn.PairBi Conn.PairConc5 Conn.PairBi5 Conn.PairManual Conn.PairManual5 Conn.PairManualSeq Conn.SessInv Conn.PairLoss Conn.PairLossAcc Conn.PairLossS.
 
 (* what the pair property rests on, each proved for ALL states of one endpoint:
    (i) delivery in any fragmentation is the same byte stream (C09) *)
@@ -256,6 +256,21 @@ Theorem C01_pair_qos2_completes_manual : forall gs gr cs cr p,
     OWN gs cs4 /\ ready cs4 /\ is_used cs4 (k_pid p) = false /\ fresh cs4 (k_pid p).
 Proof. exact qos2_completes_manual. Qed.
 Print Assumptions C01_pair_qos2_completes_manual.
+
+(* ANY SEQUENCE of exchanges with manual responses (Conn/PairManualSeq.v): [run_seq_m] is [run_seq] with the two applications
+   in the loop — each reacts to what it is notified of (PUBACK / PUBREC for a PUBLISH, PUBREL for a PUBREC, PUBCOMP for a
+   PUBREL) through the ordinary send call; it answers [Fail] when a call panics, reports an error, the library requests a
+   packet by itself, or a notification is not exactly the expected one.  The run never fails, the messages notified are
+   exactly the messages sent, once each and in order, and the invariant holds again at the end *)
+Theorem C01_pair_sequence_exactly_once_manual : forall gs gr ps cs cr,
+  pair_inv_m gs cs cr -> Forall (fun p => v311_pub p 1 \/ v311_pub p 2) ps ->
+  match run_seq_m gs gr cs cr ps with
+  | Done cs' cr' d => d = ps /\ pair_inv_m gs cs' cr'
+  | AppPre => True
+  | Fail => False
+  end.
+Proof. exact run_seq_m_ok. Qed.
+Print Assumptions C01_pair_sequence_exactly_once_manual.
 
 (* the same for v5.0 (Conn/PairManual5.v), with both Receive Maximum accounts: the receiver's slot stays taken from the
    PUBLISH until ITS APPLICATION sends PUBACK (QoS 1) or PUBCOMP (QoS 2) and is then free again; the sender's count is back
@@ -562,6 +577,27 @@ Example C01_pair_sequence_nonvacuous :
   match run_state gs (conn_new gs V311) ops_s, run_state gr (conn_new gr V311) ops_r with
   | Some cs, Some cr =>
       match run_seq gs gr cs cr ps with
+      | Done cs' cr' d => d = ps /\ c_qos2 cr' = [] /\ c_store cs' = [] /\ a_pool (c_pid cs') = [(1, 65535)]
+      | _ => False
+      end
+  | _, _ => False
+  end.
+Proof. vm_compute. repeat split; reflexivity. Qed.
+
+(* ... and the manual-response one: the same five messages without automatic responses *)
+Example C01_pair_sequence_manual_nonvacuous :
+  let gs := mkCfg RClient 65535 2 in
+  let gr := mkCfg RServer 65535 2 in
+  let cn := mkPkt 1 V311 0 0 false false [] None 0 0 14 false 0 true 0 None None None None None in
+  let ca := mkPkt 2 V311 0 0 false false [] None 0 0 4 true 0 false 0 None None None None None in
+  let ops_s := [OSend cn; ORecv [32;2;0;0] (PROk ca)] in
+  let ops_r := [ORecv [16;12;0;4;77;81;84;84;4;2;0;0;0;0] (PROk cn); OSend ca] in
+  let pb := fun id q pay => mkPkt 3 V311 id q false false [116] None pay 0 (7 + pay) false 0 false 0 None None None None None in
+  let ps := [pb 1 1 0; pb 1 2 3; pb 7 2 0; pb 7 1 5; pb 1 2 1] in
+  match run_state gs (conn_new gs V311) ops_s, run_state gr (conn_new gr V311) ops_r with
+  | Some cs, Some cr =>
+      c_auto_pub cs = false /\ c_auto_pub cr = false /\
+      match run_seq_m gs gr cs cr ps with
       | Done cs' cr' d => d = ps /\ c_qos2 cr' = [] /\ c_store cs' = [] /\ a_pool (c_pid cs') = [(1, 65535)]
       | _ => False
       end
